@@ -598,7 +598,7 @@ func c09Invalid(ctx *core.Ctx, it InvalidText) {
 	y, err := api.Format(it.Text)
 	if err == nil {
 		kind := "the parser reports an error"
-		if ok, _ := api.ParserOK(it.Text); ok {
+		if _, pe, _ := api.SyntaxErrors(it.Text); pe == 0 {
 			kind = "only the lexer reports an error (a character no token matches is silently dropped)"
 		}
 		ctx.Report("invalid text accepted by format|"+kind, fmt.Sprintf("text %s is rejected by the parser but Format returned no error\n%s", it.Name, core.Trunc(it.Text, 400)),
